@@ -234,6 +234,11 @@ def recursive(ctx, drv):
                   lambda: Validator({'l': {'type': 'list', 'schema': 'both'}}),
                   lambda: Validator({'l': {'type': 'list', 'schema': {'type': 'integer', 'coerce': families.c_int}}}),
                   [{'l': ['1', 2]}, {'l': ['x']}, {'l': [{'k': 'v'}]}]),
+                 ('a rules set by name as the schema of a value that is a mapping',
+                  lambda: Validator({'a': {'schema': 'unk'}, 'b': {'type': ['list', 'dict'], 'schema': 'unk', 'minlength': 1}}),
+                  lambda: Validator({'a': {'schema': {'type': 'integer', 'coerce': families.c_int}},
+                                     'b': {'type': ['list', 'dict'], 'schema': {'type': 'integer', 'coerce': families.c_int}, 'minlength': 1}}),
+                  [{'a': {'k': 1}}, {'a': [1, 'x'], 'b': {}}, {'b': {'k': 'v'}}]),
                  ('rules for unknown fields by name, no schema',
                   lambda: Validator(allow_unknown='unk'), lambda: Validator(allow_unknown={'type': 'integer', 'coerce': families.c_int}),
                   [{'a': '1'}, {'a': 'x', 'b': 2}, {}])]
